@@ -44,7 +44,7 @@ impl StateMachine<'_> {
     //@after? <<<self.emit_hunk_header_line(parsed_hunk_header, line, raw_line)?;>>>| proof { header_shown = true; }
     //@before <<<self.state = match new_line_state(>>>| assert(/* @C02,C14:a.hunk.header.that.was.held.back.is.shown.before.the.first.line.of.its.hunk */ old(self).state is HunkHeader ==> header_shown);
     //@before <<<self.painter.output_buffer.push('\n');>>>| proof { fell_through = true; }
-    //@before <<<self.painter.emit()?; Ok(true)>>>| assert(/* @C01:a.line.of.a.hunk.that.is.no.hunk.line.leaves.the.marker.columns.of.the.hunk.alone */ fell_through ==> self.state == State::HunkZero(hunk_dt(old(self).state), None));
+    //@before <<<Ok(true)>>>| assert(/* @C01:a.line.of.a.hunk.that.is.no.hunk.line.leaves.the.marker.columns.of.the.hunk.alone */ fell_through ==> self.state == State::HunkZero(hunk_dt(old(self).state), None));
     //@before <<<Ok(true)>>>| assert(/* @C01,C02,C11:hhl.order.step */ all_lines(&self.painter).drop_last() =~= all_lines(&old(self).painter));
     //@before <<<Ok(true)>>>| assert(/* @C01,C10:the.lines.of.the.old.file.are.counted.once.each.and.no.other.line.is */ self.minus_line_counter == (if !fell_through && (self.state is HunkMinus || self.state is HunkZero) { old(self).minus_line_counter.counted_once() } else { old(self).minus_line_counter }));
 }
